@@ -19,6 +19,7 @@
     drain_on_close, wait_timeout_within_budget, send_or_wait_within_budget, blocking_entry_total_partial
 -/
 import EmitModel.Lemmas.BatcherLive
+import EmitModel.Lemmas.BatcherExt
 
 namespace EmitModel.C08
 open EmitModel.Batcher EmitModel.Sched
@@ -171,42 +172,8 @@ theorem wait_timeout_within_budget (δ timeout : Nat) (flag0 : Bool) (wakes : Li
     `timeout` instead would allow `2·timeout`; stream `batcher_blocking_c08` has the timing cases.) -/
 theorem send_or_wait_within_budget (δ timeout : Nat) (obs : List (Nat × TryRes)) :
     ∀ (bound : Nat) (err : TryRes) (t : Nat), bound ≤ timeout + δ → sendOrWaitHonest δ timeout bound err obs →
-      sendOrWaitLastReading timeout err obs = some t → t ≤ timeout + δ := by
-  induction obs with
-  | nil => intro bound err t _ _ h; simp [sendOrWaitLastReading] at h
-  | cons p rest ih =>
-    intro bound err t hb hh ht
-    obtain ⟨elapsed, next⟩ := p
-    unfold sendOrWaitHonest at hh
-    obtain ⟨hle, hrest⟩ := hh
-    have he : elapsed ≤ timeout + δ := Nat.le_trans hle hb
-    cases err with
-    | ok => simp [sendOrWaitLastReading] at ht
-    | closed => simp [sendOrWaitLastReading] at ht; omega
-    | full x =>
-      simp only [sendOrWaitLastReading] at ht
-      simp only at hrest
-      by_cases hge : elapsed ≥ timeout
-      · simp [hge] at ht; omega
-      · simp only [hge, if_false] at ht hrest
-        cases next with
-        | ok => simp at ht; omega
-        | full y =>
-          simp only at ht hrest
-          cases hr : sendOrWaitLastReading timeout (.full y) rest with
-          | none => simp [hr] at ht; omega
-          | some t' =>
-            simp [hr] at ht
-            have := ih (elapsed + (timeout - elapsed) + δ) (.full y) t' (by omega) hrest hr
-            omega
-        | closed =>
-          simp only at ht hrest
-          cases hr : sendOrWaitLastReading timeout .closed rest with
-          | none => simp [hr] at ht; omega
-          | some t' =>
-            simp [hr] at ht
-            have := ih (elapsed + (timeout - elapsed) + δ) .closed t' (by omega) hrest hr
-            omega
+      sendOrWaitLastReading timeout err obs = some t → t ≤ timeout + δ :=
+  sendOrWait_within_budget δ timeout obs
 
 /-- the timing case of stream `batcher_blocking_c08`: woken at 0.7·T, the slot is gone, the second wait is asked
     for the remaining 0.3·T — the item is handed back at T -/
